@@ -152,12 +152,19 @@ def _eval(case):
             core.disarm()
             bad('error', 'route %s raised %r for signature %s' % (route, e, sig.hex()))
             return out
-        for g in got:
-            if dict(g) != want:
-                bad('signature', 'route %s shows %r for %s, expected %r' % (route, dict(g), sig.hex(), want))
+        try:
+            shown = [dict(g) for g in got]
+        except (TypeError, ValueError):
+            shown = [got]           # not the list of objects a signature decode gives
+        for g in shown:
+            if g != want:
+                bad('signature', 'route %s shows %r for %s, expected %r' % (route, g, sig.hex(), want))
                 break
     elif k == 'regs':
-        _regs(case, data, bad)
+        try:
+            _regs(case, data, bad)
+        except (TypeError, AttributeError, KeyError, ValueError, IndexError) as e:
+            bad('regdump-lines', 'the register dump output has an unexpected shape (%r)' % (e,))
     elif k == 'api':
         from pel.hwdiags.parserdata import ParserData
         pd = ParserData()
@@ -178,7 +185,10 @@ def _eval(case):
         if (gotc, gots, gota) != (want['Chip Desc'], want['Signature'], want['Attn Type']):
             bad('api-desc', 'ParserData descriptions %r, expected %r' % ((gotc, gots, gota), want))
     elif k == 'misc':
-        _misc(case, bad)
+        try:
+            _misc(case, bad)
+        except (TypeError, AttributeError, KeyError, ValueError, IndexError) as e:
+            bad('misc-shape', 'the output of sub-type %s has an unexpected shape (%r)' % (case.get('sub'), e))
     return out
 
 
@@ -249,6 +259,9 @@ def _regs(case, data, bad):
         core.disarm()
         bad('error', 'register dump raised %r' % (e,))
         return
+    if not isinstance(doc, dict):
+        bad('regdump-lines', 'sub-type 2 (register dump) gives %r, no register dump' % (doc,))
+        return
     lines = doc.get('Register Dump')
     want = []
     for ch in chips:
@@ -286,6 +299,9 @@ def _misc(case, bad):
     except Exception as e:
         core.disarm()
         bad('error', 'subtype %d raised %r' % (sub, e))
+        return
+    if not isinstance(doc, dict):
+        bad({3: 'callout-ffdc', 4: 'scratch-regs', 5: 'scratch-sig'}.get(sub, 'error'), 'sub-type %d gives %r' % (sub, doc))
         return
     if sub == 3:
         want = json.loads(raw.rstrip(b'\0').decode('utf8'))
